@@ -7,7 +7,7 @@ ASSUMPTIONS = [
     'metamorphic oracle: the component built from the edited model must equal the baseline signature transformed by the same edit (written from the property statement, independent of mk_class / mk_*_association)',
     'Mult / Cond are symbolic integers in 0..1, phrases symbolic strings of length <= 3; edit sites are case-split',
     'one edit per run (edit scripts of length 1)',
-    'synthesised diagrams: absolute oracle = signature computed directly from the abstract class diagram (harness/c14_synth.py); only formalised simple associations are synthesised',
+    'synthesised diagrams: absolute oracle = signature computed directly from the abstract class diagram (harness/c14_synth.py); formalised simple, subtype/supertype (three subtypes with differently named referentials) and linked associations (association class between two classes with a compound key; reflexive with phrases) are synthesised',
 ]
 
 
@@ -19,14 +19,17 @@ def conditions(tier, seed):
             ('retype', 'check_retype', 'retype every base attribute to each of 10 data types (core, user-defined, enumeration, user types stacked 2 and 3 deep on a core type and on the enumeration); referential attributes follow', [], ['bi', 'ti']),
             ('reorder', 'check_reorder', 'swap the first two attributes in the R103 chain of every class with two attributes', [], ['si']),
             ('identifier', 'check_identifier', 'add every attribute to the second identifier of its class', [], ['si']),
+            ('nested', 'check_nested', 'every class / association moved into a package of a component nested in the component: mk_component(component) and the whole model are unchanged', [], ['mi', 'how']),
             ('variants', 'check_variants', 'whole model / named component / build_component / derived attributes / 3 row orders of the model text / SQL schema round trip', [], ['which'])]
     out = []
     for fx in ('Simple_Model', 'interp_model'):
         for n, f, b, s, c in spec:
+            if n == 'nested' and fx != 'Simple_Model':
+                continue      # the second fixture has no component
             out.append(Cond('%s_%s' % (fx, n), 'c14_comp.py', dict(edit=n, fixture=fx), func=f, timeout=t,
                             bound='%s: %s' % (fx, b), symbolic=s, case_split=c, realised=['model text (PLY, outside the tracer)']))
     for sh in range(8):
         out.append(Cond('synth_s%d' % sh, 'c14_synth.py', dict(shard=sh, nshards=8), timeout=t,
-                        bound='4 synthesised class diagrams (compound identifiers whose referential names sort differently from the identifying names, reflexive association with phrases, several core types, two identifiers) x 16 Mult/Cond combinations x 4 row orders (shard %d/8)' % sh,
+                        bound='6 synthesised class diagrams (subtype hierarchy, association classes, compound identifiers whose referential names sort differently from the identifying names, reflexive association with phrases, several core types, two identifiers) x 16 Mult/Cond combinations x 4 row orders (shard %d/8)' % sh,
                         case_split=['ci (diagram, multiplicities, row order)'], realised=['model text'], twin=(sh == 0)))
     return out
